@@ -16,8 +16,8 @@ package rtppack
 
 import "encoding/binary"
 
-// Pkt is one RTP packet (no padding). The zero values of CSRC / HasExt give
-// the plain 12-byte header.
+// Pkt is one RTP packet. The zero values of CSRC / HasExt / Pad give the plain
+// 12-byte header without padding.
 type Pkt struct {
 	PT      uint8
 	Marker  bool
@@ -34,6 +34,10 @@ type Pkt struct {
 	HasExt     bool
 	ExtProfile uint16
 	Ext        []byte
+
+	// Pad > 0 sets the P bit and appends Pad padding octets after the payload, the
+	// last of which holds the count (itself included), RFC 3550 §5.1.
+	Pad uint8
 }
 
 // HeaderLen is the size of the marshalled RTP header.
@@ -61,8 +65,12 @@ func (p Pkt) Marshal() []byte {
 	if len(p.CSRC) > 15 || len(p.Ext)%4 != 0 || len(p.Ext)/4 > 0xffff {
 		panic("rtppack: illegal CSRC count or header extension length")
 	}
-	b := make([]byte, p.HeaderLen()+len(p.Payload))
+	b := make([]byte, p.HeaderLen()+len(p.Payload)+int(p.Pad))
 	b[0] = 2<<6 | byte(len(p.CSRC))
+	if p.Pad > 0 {
+		b[0] |= 0x20
+		b[len(b)-1] = p.Pad
+	}
 	if p.HasExt {
 		b[0] |= 0x10
 	}
